@@ -43,6 +43,10 @@ def world(name):
         # the output folder holds a COMPLETE earlier run made with other options and --keep_tmp (its saved assignments and lock files are
         # there); the run that is interrupted and resumed is a fresh start (--force) with default options in that folder
         extra = ["STALE"]
+    if name == "w12":
+        # a run restarted from the saved assignments of a --keep_tmp run (--read_assignments); next to those saves lie the traces of
+        # ANOTHER restart from them that was killed right after it had finished its first chromosome
+        extra = ["RESTART"]
     if name == "w11":
         # the stale-folder world with a gzipped reference (unpacked into the output folder by the run): the earlier run worked on
         # another assembly whose file has the same name
@@ -91,6 +95,28 @@ def build_template(name, d):
         os.makedirs(os.path.join(d, "alt"), exist_ok=True)
         w_alt = dict(w, genes=[dict(g, transcripts=g["transcripts"][:1]) for g in w["genes"]])
         syn.write_gtf(w_alt, os.path.join(d, "alt", "annot.gtf"))
+    if "RESTART" in extra:
+        from vlib import run, crash
+        home = os.path.join(d, "home")
+        a0 = argv_for(d, ["--keep_tmp"])
+        a0[1] = os.path.join(d, "out0")
+        if run.run_isoquant(a0, home, os.path.join(d, "saving.txt")) != 0:
+            raise core.HarnessError("the saving run of world %s failed" % name)
+        a1 = argv_for(d, extra)
+        a1[1] = os.path.join(d, "out1")
+        norm = crash.make_normaliser(d, list(w["chroms"]))
+        rec = os.path.join(d, "pre.rec")
+        run.run_isoquant(a1, home, os.path.join(d, "pre.txt"), pre_hook=lambda: crash.Injector(0, "none", rec, norm).install())
+        pts, _ = crash.read_record(rec)
+        first = next(i for i, l in pts if l.startswith("open-w:") and l.split("#")[0].endswith("_processed"))
+        os.remove(rec)
+        shutil.rmtree(os.path.join(d, "out1"))
+        rc = run.run_isoquant(a1, home, os.path.join(d, "pre.txt"), pre_hook=lambda: crash.Injector(first, "after", rec, norm).install())
+        if rc != 137:
+            raise core.HarnessError("the interrupted restart of world %s ended with %d" % (name, rc))
+        shutil.rmtree(os.path.join(d, "out1"))
+        for f in ("pre.rec", "pre.txt", "saving.txt"):
+            os.remove(os.path.join(d, f))
     if "ALTREF" in extra:
         # the other assembly: same sequence names and lengths, no splice-site dinucleotides anywhere (A -> C, T -> G)
         import gzip
@@ -113,9 +139,11 @@ def fresh_copy(template, dest):
 def argv_for(d, extra, threads=1):
     ref = os.path.join(d, "ref.fa.gz") if os.path.exists(os.path.join(d, "ref.fa.gz")) else os.path.join(d, "ref.fa")
     extra = [x.replace("TEMPLATE_DIR", d) for x in extra]
-    flags = set(x for x in extra if x in ("NO_GENEDB", "YAML2", "GZ_GTF", "STALE", "ALTREF"))
+    flags = set(x for x in extra if x in ("NO_GENEDB", "YAML2", "GZ_GTF", "STALE", "ALTREF", "RESTART"))
     extra = [x for x in extra if x not in flags]
     inp = ["--yaml", os.path.join(d, "in.yaml")] if "YAML2" in flags else ["--bam", os.path.join(d, "reads.bam")]
+    if "RESTART" in flags:
+        inp = ["--read_assignments", os.path.join(d, "out0", "OUT", "aux", "OUT.save")]
     if "NO_GENEDB" in flags:
         gdb = []
     elif "GZ_GTF" in flags:
@@ -383,7 +411,7 @@ def signature(status, detail):
 
 def run(ctx):
     quick = ctx.tier == "quick"
-    worlds_ = ["w1", "w2", "w3", "w7", "w10", "w11"] if quick else ["w1", "w2", "w3", "w4", "w5", "w6", "w7", "w8", "w9", "w10", "w11"]
+    worlds_ = ["w1", "w2", "w3", "w7", "w10", "w11", "w12"] if quick else ["w1", "w2", "w3", "w4", "w5", "w6", "w7", "w8", "w9", "w10", "w11", "w12"]
     if os.environ.get("VERIF_C07_WORLDS"):
         worlds_ = os.environ["VERIF_C07_WORLDS"].split(",")      # development aid: restrict the worlds
     total = 0
